@@ -427,6 +427,7 @@ struct Output {
     name: String,
     items: Vec<Item>,
     manifest: Vec<(String, String, String)>, // (file, selector, text)
+    wrap_impl: Option<String>,
 }
 
 fn json_escape(s: &str) -> String {
@@ -454,6 +455,12 @@ fn flush(out: &mut Output, out_dir: &Path, index: &mut Vec<String>) {
     let mut items = std::mem::take(&mut out.items);
     for it in items.iter_mut() {
         AttrCleaner.visit_item_mut(it);
+    }
+    if let Some(ty) = &out.wrap_impl {
+        let ty: syn::Type = syn::parse_str(ty).unwrap_or_else(|e| die(&format!("out {}: bad impl type: {e}", out.name)));
+        let wrapped: Item = syn::parse2(quote::quote! { impl #ty { #(#items)* } })
+            .unwrap_or_else(|e| die(&format!("out {}: cannot wrap in impl: {e}", out.name)));
+        items = vec![wrapped];
     }
     let file = syn::File { shebang: None, attrs: vec![], items };
     // exact printer: the token stream itself, laid out one statement per line (no pretty-printer
@@ -581,7 +588,18 @@ fn main() {
         match kw {
             "out" => {
                 flush(&mut out, out_dir, &mut index);
-                out.name = rest.to_string();
+                // `out file.rs [impl Type]`: the functions sliced into this file are emitted inside
+                // `impl Type { … }` (for statement slices that mention `self`)
+                match rest.split_once(" impl ") {
+                    Some((n, ty)) => {
+                        out.name = n.trim().to_string();
+                        out.wrap_impl = Some(ty.trim().to_string());
+                    }
+                    None => {
+                        out.name = rest.to_string();
+                        out.wrap_impl = None;
+                    }
+                }
                 continue;
             }
             "strip_derives" => {
